@@ -65,6 +65,11 @@ def vmdk_desc(draw, tier):
         cap = draw(st.one_of(st.integers(1, 400), st.sampled_from([16, 17, 31, 128, 2048, 4096 + 8])))
         e = draw(c02.extent_spec(tier, kind=kind, layer=j, capacity=cap, allow_compressed=True))
         e.pop("descriptor", None)
+        if kind == "flat" and draw(st.integers(0, 3)) == 0:
+            # a flat extent holds guest data verbatim, and the descriptor says so: data that begins like a sparse extent (a nested
+            # .vmdk written to a raw disk) is still data
+            e["head"] = draw(st.sampled_from(["KDMV\x01\x00\x00\x00\x03\x00\x00\x00", "KDMV", "COWD\x01\x00\x00\x00", "\xbe\xba\xfe\xca\x00\x00\x00\x00\x02\x00\x00\x00\x01\x00\x00\x00",
+                                              "# Disk DescriptorFile\nversion=1\n"]))
         exts.append({
             "spec": e, "type": draw(st.sampled_from(TYPES[kind])), "name": draw(file_name(j)),
             "access": draw(st.sampled_from(["RW", "RW", "RDONLY", "NOACCESS"])),
